@@ -54,7 +54,7 @@ PROPS = {
  'C09': dict(level='translation_validation', lemmas=['S4', 'S1', 'S5'],
    files=['src/superscalar.cpp', 'src/superscalar.hpp', 'src/superscalar_program.hpp', 'src/blake2_generator.cpp', 'src/dataset.cpp', 'src/jit_compiler_x86.cpp', 'src/reciprocal.c', 'doc/specs.md'],
    explanation='TODO', trusted=[], outside=[]),
- 'C07': dict(level='other', lemmas=['I4', 'I6', 'I1', 'J1'],
+ 'C07': dict(level='other', footprint=True, lemmas=['I4', 'I6', 'I1', 'J1'],
    files=['src/bytecode_machine.cpp', 'src/bytecode_machine.hpp', 'src/jit_compiler_x86.cpp', 'src/configuration.h', 'src/common.hpp', 'doc/specs.md'],
    explanation='TODO', trusted=[], outside=[]),
  'C14': dict(level='other', footprint=True, max_jobs_per_lemma=6, lemmas=['F1', 'H6', 'H7', 'I8', 'I1', 'J1', 'D1', 'D2', 'S1', 'S4', 'A5', 'A2', 'B2', 'B3', 'H1', 'H3', 'G4'],
@@ -66,7 +66,7 @@ PROPS = {
  'C01': dict(level='other', lemmas=['K1', 'J3', 'J1', 'I1', 'I8', 'A2', 'A3', 'A5', 'D1', 'D2', 'S4', 'G2', 'G4', 'H1', 'H7'],
    files=['src/randomx.cpp', 'src/vm_interpreted.cpp', 'src/vm_interpreted_light.cpp', 'src/vm_compiled.cpp', 'src/vm_compiled_light.cpp', 'src/virtual_machine.cpp', 'src/jit_compiler_x86.cpp', 'src/jit_compiler_x86_static.S', 'src/aes_hash.cpp', 'src/soft_aes.cpp', 'src/dataset.cpp'],
    explanation='TODO', trusted=[], outside=[]),
- 'C06': dict(level='other', lemmas=['I1', 'J1', 'I8', 'I7', 'D1', 'D2', 'A5', 'B2', 'B3', 'H1', 'S4', 'G4'],
+ 'C06': dict(level='other', lemmas=['J4', 'I1', 'J1', 'I8', 'J3', 'J5', 'I7', 'D1', 'D2', 'A5', 'B2', 'B3', 'H1', 'S4', 'G4'],
    files=['src/common.hpp', 'src/bytecode_machine.hpp', 'src/bytecode_machine.cpp', 'src/vm_interpreted.cpp', 'src/virtual_machine.cpp', 'src/jit_compiler_x86.cpp', 'src/jit_compiler_x86_static.S', 'src/dataset.cpp', 'src/randomx.cpp'],
    explanation='TODO', trusted=[], outside=[]),
  'C17': dict(level='other', lemmas=['P1', 'P3', 'P4'],
